@@ -12,9 +12,11 @@ package hserver
 //       after every accepted/failed create, delete and restart.
 
 import (
+	"encoding/json"
 	"fmt"
 	"sort"
 	"strings"
+	"sync"
 	"sync/atomic"
 	"testing"
 
@@ -168,6 +170,7 @@ func c10Body(t *rapid.T) {
 	var hist []string
 	nAccepted, nRejected, nFailed, nRestart, nDelete := 0, 0, 0, 0, 0
 	overlapAccepted := false
+	nConcurrent := 0
 
 	othersUnion := func(target int, except string) map[string]bool {
 		u := map[string]bool{}
@@ -325,6 +328,75 @@ func c10Body(t *rapid.T) {
 		"createFail": func(t *rapid.T) {
 			create(t, rapid.SampledFrom([]string{"info.get", "info.put", "pos.get", "info.get"}).Draw(t, "failAt"))
 		},
+		"concurrentCreates": func(t *rapid.T) {
+			// the HTTP server handles requests concurrently: 2..4 create requests for one target are released together. Which of
+			// them win is open; whatever was accepted must satisfy the invariants of check(): every pair owned by at most one
+			// task, both selection paths agree, the bookkeeping equals what the persisted tasks imply.
+			if nConcurrent >= 2 {
+				t.Skip("enough concurrent rounds")
+			}
+			k := rapid.IntRange(2, 4).Draw(t, "k")
+			target := rapid.IntRange(0, 1).Draw(t, "target")
+			specs := make([]spec, k)
+			bodies := make([][]byte, k)
+			for i := range specs {
+				specs[i] = genSpec(t)
+				req := specs[i].request(w.uris[target])
+				if rapid.IntRange(0, 4).Draw(t, "role") == 0 {
+					req["extra_info"] = map[string]any{"enable_user_role": true}
+				}
+				bodies[i], _ = json.Marshal(map[string]any{"request_type": "create", "request_data": req})
+			}
+			results := make([]resp, k)
+			panics := make([]any, k)
+			gate := make(chan struct{})
+			var wg sync.WaitGroup
+			for i := 0; i < k; i++ {
+				wg.Add(1)
+				go func(i int) {
+					defer wg.Done()
+					<-gate
+					results[i], panics[i] = w.inc.postRaw("POST", bodies[i])
+				}(i)
+			}
+			close(gate)
+			wg.Wait()
+			var names []string
+			for i := range specs {
+				if panics[i] != nil {
+					t.Fatalf("concurrent create %s panicked the handler: %v\nhistory: %v", specs[i], panics[i], hist)
+				}
+				names = append(names, fmt.Sprintf("%s->%d", specs[i], results[i].Code))
+			}
+			hist = append(hist, fmt.Sprintf("concurrentCreates(t%d,%s)", target, strings.Join(names, " | ")))
+			persisted := map[string]*meta.TaskInfo{}
+			for _, ti := range w.listTasks(t) {
+				persisted[ti.TaskID] = ti
+			}
+			for i := range specs {
+				if results[i].Code != 200 {
+					nRejected++
+					continue
+				}
+				id, _ := results[i].Data["task_id"].(string)
+				ti := persisted[id]
+				if ti == nil {
+					t.Fatalf("accepted task %s (%s) is not persisted\nhistory: %v", id, specs[i], hist)
+				}
+				sel, _ := readSets(ti)
+				for _, db := range uniDBs {
+					for _, c := range uniColls {
+						if kk := pairKey(db, c); sel[kk] && !specs[i].selects(db, c) {
+							t.Fatalf("task %s (%s) selects %s which its specification does not name\nhistory: %v", id, specs[i], kk, hist)
+						}
+					}
+				}
+				nAccepted++
+				tasks[id] = &c10task{id: id, label: fmt.Sprintf("T%d", nAccepted), target: target, spec: specs[i], sel: sel}
+			}
+			nConcurrent++
+			check("concurrentCreates")
+		},
 		"delete": func(t *rapid.T) {
 			if len(tasks) == 0 {
 				t.Skip("no task")
@@ -362,6 +434,7 @@ func c10Body(t *rapid.T) {
 	st.ClassIf(overlapAccepted, "accepted_with_exclusion")
 	st.ClassIf(nRejected > 0, "rejected_create")
 	st.ClassIf(nFailed > 0, "failed_create_after_bookkeeping")
+	st.ClassIf(nConcurrent > 0, "concurrent_creates")
 	st.ClassIf(nRestart > 0, "restart")
 	st.ClassIf(nDelete > 0, "delete")
 	st.Count("creates_accepted", nAccepted)
